@@ -485,6 +485,45 @@ def b_c16(tier):
                     check(False, "a row index beyond the last row was accepted", rows=len(model))
                 except Exception:
                     same("refused write_rows")
+                # several rows at once: every ordered selection of 2..4 row indices (all of them for <= 4 rows, a sample plus the
+                # disordered-interior lists otherwise): accepted -> every given row stands at ITS index, refused -> table unchanged
+                nr = len(model)
+                osel = [list(c) for r_ in range(2, min(4, nr) + 1) for c in itertools.permutations(range(nr), r_)]
+                if len(osel) > 48:
+                    osel = osel[::max(1, len(osel) // 40)] + [x for x in ([0, 2, 1, 3], [1, 3, 2, 4], [1, 0], [nr - 1, nr - 3, nr - 2])
+                                                             if max(x) < nr and min(x) >= 0]
+                for si, sel in enumerate(osel):
+                    rws = [tuple(cell(tp, 50 + si + j, c) for c, tp in enumerate(types)) for j in range(len(sel))]
+                    try:
+                        df.write_rows(rws, sel)
+                    except Exception:
+                        same("refused write_rows of rows %r" % (sel,))
+                        continue
+                    for j, r_ in enumerate(sel):
+                        model[r_] = list(rws[j])
+                    same("write_rows of rows %r" % (sel,))
+                # several rows of which ONE is unusable (too few fields / text in a numeric column), at every place of the call: the
+                # call must be refused and the table must read as before - no earlier row of the call may have been written
+                numcols = [c for c, tp in enumerate(types) if tp not in (str, bool)]
+                for nsel in (2, 3):
+                    if nr < nsel:
+                        continue
+                    sel = list(range(nr - nsel, nr))
+                    for badpos in range(nsel):
+                        for kind in ("short", "text"):
+                            if kind == "text" and not numcols:
+                                continue
+                            rws = [list(cell(tp, 70 + j, c) for c, tp in enumerate(types)) for j in range(nsel)]
+                            if kind == "short":
+                                rws[badpos] = rws[badpos][:-1]
+                            else:
+                                rws[badpos][numcols[0]] = "not a number"
+                            try:
+                                df.write_rows([tuple(r_) for r_ in rws], sel)
+                                check(False, "write_rows accepted a row it cannot store", rows=rws, index=sel, bad=badpos, kind=kind)
+                                break
+                            except Exception:
+                                same("write_rows refused for its row #%d (%s) of %d" % (badpos, kind, nsel))
                 df.write_cell(cell(types[0], 40, 0), position=(1, 0)); model[1][0] = cell(types[0], 40, 0); same("write_cell by position")
                 check(df.read_cell(position=(1, 0)) == model[1][0], "read_cell by position differs", expected=model[1][0])
                 # read_columns: every ordered selection of up to all columns, by index and by name, whole and sliced, both groupings
@@ -550,7 +589,7 @@ def b_c16(tier):
           expected=[str(x) for x in want_dt])
     check([tuple(r)[:4] for r in got] == [tuple(r)[:4] for r in small], "a frame created from small-typed data does not read back equal")
     f.close()
-    return "%d schemas x row counts {0,1,3} x creation variants {col_dict, names+dtypes, names+data}; append rows, overwrite every column by index and by name, first/last row, one cell; wrong lengths, out-of-range row, duplicate column names; a column appended through a handle whose shape was read; small element types from names + data" % len(schemas)
+    return "%d schemas x row counts {0,1,3} x creation variants {col_dict, names+dtypes, names+data}; append rows, overwrite every column by index and by name, first/last row, several rows at once (every ordered selection of 2..4 row indices, sampled above 48: each given row at ITS index or refused with the table unchanged; one unusable row at every place of a 2- / 3-row call: refused, table unchanged), one cell; wrong lengths, out-of-range row, duplicate column names; a column appended through a handle whose shape was read; small element types from names + data" % len(schemas)
 
 
 # ------------------------------------------------------------------------------------------------------------------
